@@ -167,7 +167,7 @@ theorem flatMap_length_ge {α β} (f : α → List β) (xs : List α) (h : ∀ x
     simp only [List.flatMap_cons, List.length_append, List.length_cons]
     omega
 
-theorem arecOf_good (g : Cfg) (d : Nat) (cplx : Bool) (hg : GoodCfg g d cplx) (hd : 2 ≤ d) (hp : 1 ≤ perline d)
+theorem arecOf_good (g : Cfg) (d : Nat) (cplx : Bool) (hg : GoodCfg g d cplx) (hd : 1 ≤ d) (hp : 1 ≤ perline d)
     (lay : Layout) (ncols c : Nat) (col : List Entry) (s : Nat) (tl : List Nat) (h : nzIdx cplx col = s :: tl)
     (hc : c < ncols) (hn : ncols + 1 < 10 ^ 8) (hrows : 6 * col.length < 10 ^ 8)
     (hnb : lay = .nonbigmat → col.length < 65536)
@@ -229,7 +229,7 @@ theorem arecOf_good (g : Cfg) (d : Nat) (cplx : Bool) (hg : GoodCfg g d cplx) (h
       exact hfit x ((mem_strings cplx col s' hs').2.2 x hx) b hbx
     · exact strings_rows cplx col (hnb rfl)
 
-theorem arecsOf_good (g : Cfg) (d : Nat) (cplx : Bool) (hg : GoodCfg g d cplx) (hd : 2 ≤ d) (hp : 1 ≤ perline d)
+theorem arecsOf_good (g : Cfg) (d : Nat) (cplx : Bool) (hg : GoodCfg g d cplx) (hd : 1 ≤ d) (hp : 1 ≤ perline d)
     (lay : Layout) (ncols rows : Nat) (hn : ncols + 1 < 10 ^ 8) (hrows : 6 * rows < 10 ^ 8)
     (hnb : lay = .nonbigmat → rows < 65536) :
     ∀ (cols : List (List Entry)) (c : Nat), c + cols.length ≤ ncols → (∀ col ∈ cols, col.length = rows) →
@@ -716,7 +716,7 @@ theorem lines_length_ge (recs : List ARec) : recs.length ≤ (recs.flatMap ARec.
   flatMap_length_ge _ _ fun rc _ => by simp [ARec.lines]
 
 /-- `_loadop4_ascii` on the lines of a written matrix -/
-theorem rdMatrixA_enc (dformat : Bool) (d : Nat) (hd : 2 ≤ d) (hp : 1 ≤ perline d) (lay : Layout) (m : Mat)
+theorem rdMatrixA_enc (dformat : Bool) (d : Nat) (hd : 1 ≤ d) (hp : 1 ≤ perline d) (lay : Layout) (m : Mat)
     (hwf : WfA m) (hnb : lay = .nonbigmat → m.rows < 65536)
     (hfit : ∀ col ∈ m.cols, ∀ x ∈ col, ∀ b ∈ entryDs m.cplx x, Fits d b) (rest : List Str) :
     ∃ lay' auto, rdMatrixA dformat (matLines d lay m ++ rest) =
